@@ -34,6 +34,13 @@ def py_mod(a, b):
 
 def binop(R, E, op, a, b, node):
     from . import npmodel
+    from .values import NanReal
+    if isinstance(a, NanReal) or isinstance(b, NanReal):
+        va, fa = (a.val, a.isnan) if isinstance(a, NanReal) else (a, z3.BoolVal(False))
+        vb, fb = (b.val, b.isnan) if isinstance(b, NanReal) else (b, z3.BoolVal(False))
+        if isinstance(va, NdArr) or isinstance(vb, NdArr):
+            raise Unsupported("array arithmetic with a possibly-NaN scalar")
+        return NanReal(binop(R, E, op, va, vb, node), z3.simplify(z3.Or(fa, fb)))
     if isinstance(a, NdArr) or isinstance(b, NdArr):
         return npmodel.arr_binop(R, E, op, a, b, node)
     if a is NaN or b is NaN:
@@ -608,7 +615,7 @@ def call_method(R, E, recv, name, args, kwargs, node):
         raise Unsupported("set.%s" % name)
     if isinstance(recv, SList):
         if name == "append":
-            recv.append(args[0])
+            recv.append(args[0], E)
             return None
         raise Unsupported("symbolic list method %s" % name)
     if is_str_like(recv):
